@@ -83,3 +83,8 @@ pub open spec fn alts_text(s: Seq<BoundSet>, k: int) -> Seq<char>
     if k <= 0 { Seq::<char>::empty() } else { alts_text(s, k - 1) + (if k == 1 { Seq::<char>::empty() } else { "||"@ }) + bs_text(s[k - 1]) }
 }
 impl DispSpec for Range { open spec fn disp(&self) -> Seq<char> { alts_text(self.0@, self.0@.len() as int) } }
+
+pub open spec fn op_text(o: Operation) -> Seq<char> {
+    match o { Operation::Exact => ""@, Operation::GreaterThan => ">"@, Operation::GreaterThanEquals => ">="@, Operation::LessThan => "<"@, Operation::LessThanEquals => "<="@ }
+}
+impl DispSpec for Operation { open spec fn disp(&self) -> Seq<char> { op_text(*self) } }
